@@ -87,6 +87,7 @@ def regenerate(log):
     # static effect facts (ASTs under /repo/xdis)
     import effects
     import gen_lean
+    import writes
     fl = effects.facts({"load_module"})
     fd = effects.facts({"disassemble_file", "disco", "disco_loop", "disco_loop_asm_format"})
     eff = [gen_lean.HDR, "import XV.Base.Str\n", "namespace XV.Gen\n",
@@ -102,6 +103,11 @@ def regenerate(log):
            "def hostSitesText : List String := %s\n" % gen_lean.lstrs(["%s %s %s" % (a, b, ",".join(c)) for a, b, c in effects.host_sites()]),
            "/-- reviewed list /verif/ref/host_sites.txt -/\n",
            "def hostAllow : List (XV.Str × XV.Str) := [%s]\n" % ", ".join("(%s, %s)" % (gen_lean.lS(a), gen_lean.lS(b)) for a, b, _ in effects.host_allow()),
+           "/-- (kind, file, scope, target) of every place where state that outlives a call can be changed (harness/writes.py) -/\n",
+           "def writeSites : List (List XV.Str) := [%s]\n" % ", ".join(gen_lean.lSs(r[:4]) for r in writes.scan()),
+           "def writeSitesText : List String := %s\n" % gen_lean.lstrs(["%s %s %s %s (line %s)" % tuple(r) for r in writes.scan()]),
+           "/-- reviewed list /verif/ref/write_sites.txt -/\n",
+           "def writeAllow : List (List XV.Str) := [%s]\n" % ", ".join(gen_lean.lSs(r[:4]) for r in writes.allow()),
            "end XV.Gen\n"]
     gen_lean.write_if_changed(os.path.join(LEAN, "XV", "Gen", "Effects.lean"), "".join(eff))
     p = run([MAIN_HOST, os.path.join(HARNESS, "gen_lean.py"), tj, refs, reg, os.path.join(LEAN, "XV", "Gen")])
